@@ -306,6 +306,26 @@ pub fn ev_replace_bytes(r: &mut Rec, s: &Searcher, hay: &[u8], rep: &[Vec<u8>], 
                  {"var":"with_bytes","R":rep,"stop":stop,"str":false}]));
 }
 
+/// the infallible replace wrappers of the top-level searcher
+pub fn ev_replace_infallible(r: &mut Rec, s: &Searcher, hay: &[u8], rep: &[Vec<u8>]) {
+    let ac = match s { Searcher::Top(ac) => ac, _ => return };
+    let g = guarded(|| ac.replace_all_bytes(hay, rep));
+    let (o, v) = match g { Ok(v) => ("ok", json!(v)), Err(p) => ("panic", json!(p)) };
+    r.put(json!(["replace", false, false, o, v, {"var":"infallible_all_bytes","R":rep,"stop":0,"str":false}]));
+    let g = guarded(|| { let mut dst = vec![]; ac.replace_all_with_bytes(hay, &mut dst, |m, _, d| { d.extend(&rep[m.pattern().as_usize()]); true }); dst });
+    let (o, v) = match g { Ok(v) => ("ok", json!(v)), Err(p) => ("panic", json!(p)) };
+    r.put(json!(["replace", false, false, o, v, {"var":"infallible_with_bytes","R":rep,"stop":0,"str":false}]));
+    if let (Ok(hs), true) = (std::str::from_utf8(hay), rep.iter().all(|x| std::str::from_utf8(x).is_ok())) {
+        let reps: Vec<String> = rep.iter().map(|x| String::from_utf8(x.clone()).unwrap()).collect();
+        let g = guarded(|| ac.replace_all(hs, &reps));
+        let (o, v) = match g { Ok(v) => ("ok", json!(v.as_bytes())), Err(p) => ("panic", json!(p)) };
+        r.put(json!(["replace", false, false, o, v, {"var":"infallible_all_str","R":rep,"stop":0,"str":true}]));
+        let g = guarded(|| { let mut dst = String::new(); ac.replace_all_with(hs, &mut dst, |m, _, d| { d.push_str(&reps[m.pattern().as_usize()]); true }); dst });
+        let (o, v) = match g { Ok(v) => ("ok", json!(v.as_bytes())), Err(p) => ("panic", json!(p)) };
+        r.put(json!(["replace", false, false, o, v, {"var":"infallible_with_str","R":rep,"stop":0,"str":true}]));
+    }
+}
+
 pub fn ev_replace_all_bytes(r: &mut Rec, s: &Searcher, hay: &[u8], rep: &[Vec<u8>]) {
     let (out, res) = outcome(guarded(|| s.replace_all_bytes(hay, rep)));
     r.put(json!(["replace", false, false, out, res,
@@ -628,6 +648,41 @@ impl Filter {
     }
 }
 
+/// the INFALLIBLE entry points of the top-level searcher (find, find_iter,
+/// find_overlapping_iter, find_overlapping, is_match is already covered),
+/// recorded under the same call kinds as their try_ twins
+fn infallible_flavours(r: &mut Rec, s: &Searcher, c: &Ctx, f: &Filter, hay: &[u8], sp: (usize, usize), an: bool) {
+    let ac = match s { Searcher::Top(ac) => ac, _ => return };
+    if f.has("find") {
+        let g = guarded(|| ac.find(mk_input(hay, sp.0, sp.1, an, false)));
+        let (o, v) = match g { Ok(m) => ("ok", om2v(&m)), Err(p) => ("panic", json!(p)) };
+        r.put(json!(["find", an, false, o, v, "infallible"]));
+    }
+    if f.has("iter") {
+        let lim = s.item_limit(&mk_input(hay, sp.0, sp.1, an, false));
+        let g = guarded(|| ac.find_iter(mk_input(hay, sp.0, sp.1, an, false)).take(lim + 1).map(|m| m2v(&m)).collect::<Vec<_>>());
+        let (o, v) = match g { Ok(v) => (if v.len() > lim { "runaway" } else { "ok" }, json!(v)), Err(p) => ("panic", json!(p)) };
+        r.put(json!(["iter", an, false, o, v, "infallible"]));
+    }
+    if c.mk == "std" && f.has("overlap") && !an {
+        let lim = s.item_limit(&mk_input(hay, sp.0, sp.1, false, false));
+        let g = guarded(|| ac.find_overlapping_iter(mk_input(hay, sp.0, sp.1, false, false)).take(lim + 1).map(|m| m2v(&m)).collect::<Vec<_>>());
+        let (o, v) = match g { Ok(v) => (if v.len() > lim { "runaway" } else { "ok" }, json!(v)), Err(p) => ("panic", json!(p)) };
+        r.put(json!(["overlap_iter", false, false, o, v, "infallible"]));
+        let g = guarded(|| {
+            let mut st = OverlappingState::start();
+            let mut res = vec![];
+            loop {
+                ac.find_overlapping(mk_input(hay, sp.0, sp.1, false, false), &mut st);
+                match st.get_match() { Some(m) if res.len() <= lim => res.push(m2v(&m)), _ => break }
+            }
+            res
+        });
+        let (o, v) = match g { Ok(v) => (if v.len() > lim { "runaway" } else { "ok" }, json!(v)), Err(p) => ("panic", json!(p)) };
+        r.put(json!(["overlap_iter", false, false, o, v, "infallible-step"]));
+    }
+}
+
 /// every selected search flavour on one (hay, span)
 fn all_flavours(r: &mut Rec, s: &Searcher, c: &Ctx, f: &Filter, hay: &[u8], sp: (usize, usize)) {
     for &an in &f.ans {
@@ -652,6 +707,7 @@ fn all_flavours(r: &mut Rec, s: &Searcher, c: &Ctx, f: &Filter, hay: &[u8], sp: 
                 ev_overlap_iter(r, s, hay, sp);
             }
         }
+        infallible_flavours(r, s, c, f, hay, sp, an);
     }
     r.flush(hay, sp);
 }
@@ -752,6 +808,20 @@ pub fn run(out_prefix: &str, shards: usize, family: &str, seed: u64, scale: usiz
                         c.sk = sk;
                         // the top-level searcher enforces its start kind for every kind
                         with_ctx(&mut out, &mut stats, &c, &mut |r, s| {
+                            // the facade must hand its options to the automaton builders: its Debug
+                            // dump (every state, transition, match list) is that of the low-level
+                            // automaton built directly with the same options
+                            if let (Searcher::Top(ac), true) = (s, repr.starts_with("top-") && repr != "top-auto") {
+                                let mut lc = c.clone();
+                                lc.repr = &repr[4..];
+                                if let Ok(low) = build_low(&lc) {
+                                    let top = format!("{:?}", ac);
+                                    let lowd = with_aut!(&low, a => format!("AhoCorasick({:?})", a));
+                                    let fnv = |s: &str| { let mut h: u64 = 0xcbf29ce484222325; for b in s.bytes() { h ^= b as u64; h = h.wrapping_mul(0x100000001b3); } format!("{:016x}:{}", h, s.len()) };
+                                    r.put(json!(["debug_eq", false, false, "ok", [fnv(&top), fnv(&lowd)], 0]));
+                                    r.flush(&[], (0, 0));
+                                }
+                            }
                             for (h, &sp) in hays.iter().zip(spans.iter()) {
                                 all_flavours_top(r, s, &c, f, h, sp);
                             }
@@ -881,6 +951,9 @@ pub fn run(out_prefix: &str, shards: usize, family: &str, seed: u64, scale: usiz
                         ev_replace_str(r, s, h, &rep, rg.gen_range(0..4), false);
                         ev_replace_all_bytes(r, s, h.as_bytes(), &repb);
                         ev_replace_bytes(r, s, h.as_bytes(), &repb, rg.gen_range(0..4));
+                        if c.sk != "anchored" {
+                            ev_replace_infallible(r, s, h.as_bytes(), &repb);
+                        }
                         r.flush(h.as_bytes(), (0, h.len()));
                     }
                 });
